@@ -367,6 +367,12 @@ def run(tier, seed):
     if rn.error or not rn.violated:
         raise tlc.MachineryError('FileStore_noflush (negative test) did not fail: %s' % (rn.error or 'passed'))
     chk.note('negative test: without the flush before detach TLC refutes %s' % rn.violated)
+    # unbounded layer: FileStore implements the counting abstraction FileStoreInt (TLC); its inductive invariant holds for
+    # tables and histories of any length (Apalache); without the flush before detach the proof must fail
+    from harness import apalache
+    rr = tlc.require_ok(tlc.run('FileStoreRef', cfg='FileStoreRef', timeout=900), 'FileStoreRef')
+    chk.add_tlc(rr, 'FileStoreRef', 'FileStoreRef')
+    apalache.inductive(chk, 'FileStoreInt', negative=[('Variant = "ok"', 'Variant = "noflush"')])
     rg = tlc.run('FileStore', cfg='FileStoreGen', timeout=900, workers=1, coverage=False)
     if rg.error or rg.violated:
         raise tlc.MachineryError('FileStoreGen: %s' % (rg.error or rg.violated))
